@@ -14,12 +14,12 @@ import (
 // C04-O6 the field-name finder keeps no state across buffers / streams
 // ---------------------------------------------------------------------------
 
-// vC04Letters: n letters over {a,A,b}.
-func vC04Letters(name string, n int) string {
+// vC04Letters: n letters over {a,b}, or over {a,A,b} if upper.
+func vC04Letters(name string, n int, upper bool) string {
 	b := make([]byte, n)
 	for i := range b {
 		c := verif.Byte(name)
-		verif.Assume(vC04Or(c == 'a', vC04Or(c == 'A', c == 'b')))
+		verif.Assume(vC04Or(c == 'a', vC04Or(vC04And(upper, c == 'A'), c == 'b')))
 		b[i] = c
 	}
 	return string(b)
@@ -53,11 +53,17 @@ func vC04NewStream(n30, n31 string) *vC04Stream {
 // vC04Layouts: which values (0 = the one of id 30, 1 = the one of id 31) a
 // buffer holds, in order.
 var vC04Layouts = [][]int{
-	{0},
-	{1},
 	{0, 1},
 	{1, 0},
 	{0, 0, 1},
+	{1},
+}
+
+// vC04FirstLayouts: what the earlier buffer held.
+var vC04FirstLayouts = [][]int{
+	{},
+	{0, 1},
+	{1, 0},
 }
 
 func (s *vC04Stream) buffer(layout []int) []byte {
@@ -80,26 +86,21 @@ func (s *vC04Stream) specMatch(layout []int, pattern string) bool {
 	return m
 }
 
-// verif:desc C04-O6 ONE expr.FieldNameFinder (the reused scanner worker owns one inside its BufferFilter) is asked Find(zctx1, buf1) and then Find(zctx2, buf2), where zctx2 is the fresh local type context of the next ZNG stream in which the same type ids 30 and 31 denote DIFFERENT record types: the second answer depends only on (zctx2, buf2): if a record type occurring in buf2 (under zctx2) has a field name containing the pattern up to ASCII case, Find returns true whatever buf1 was (id finder-drops-matching-type/second-buffer), and it equals the answer of a brand-new finder (id finder-answer-depends-on-earlier-buffer).  buf2 may hold several values of different types and repeated types within the one call: the per-buffer checkedIDs bitset must not suppress a later, different type (same ids), nor may FieldNameIter's reused buffers leak a name.
-// verif:bounds pattern: 2 letters over {a,A,b}; stream 1: id 30 = {n:int64} with n 1..2 letters over {a,A,b}, id 31 = {b:string}; stream 2: id 30 = {m:int64} with m 2 letters, id 31 = {k:string} with k 1..2 letters over {a,A,b}; buf1 and buf2 each one of the value sequences [30], [31], [30,31], [31,30], [30,30,31] (buf1 also empty)
-// verif:outside nested records and records inside containers (C04-O5); string-value matching (C04-O2); more than two types per stream; concurrent workers
+// verif:desc C04-O6 ONE expr.FieldNameFinder (the reused scanner worker owns one inside its BufferFilter) is asked Find(zctx1, buf1) and then Find(zctx2, buf2), where zctx2 is the fresh local type context of the next ZNG stream in which the same type ids 30 and 31 denote DIFFERENT record types: the second answer depends only on (zctx2, buf2): if a record type occurring in buf2 (under zctx2) has a field name containing the pattern up to ASCII case, Find returns true whatever buf1 was (id finder-drops-matching-type/second-buffer), and, the finder being exact for flat record types, it equals the specification evaluated on (zctx2, buf2) alone (id finder-answer-depends-on-earlier-buffer).  buf2 may hold several values of different types and repeated types within the one call: the per-buffer checkedIDs bitset must not suppress a later, different type (same ids), nor may FieldNameIter's reused buffers leak a name.
+// verif:bounds pattern: 2 letters over {a,A,b}; field names over {a,b}: stream 1: id 30 = {n:int64} with n 1..2 letters, id 31 = {b:string}; stream 2: id 30 = {m:int64} with m 2 letters, id 31 = {k:string} with k 1..2 letters; buf1 one of the value sequences [], [30,31], [31,30]; buf2 one of [30,31], [31,30], [30,30,31], [31]
+// verif:outside upper-case letters in field names (case folding: C04-O2, O2d, O5); nested records and records inside containers (C04-O5); string-value matching (C04-O2); more than two types per stream; concurrent workers
 // verif:unwind 48
 // verif:solver z3-new
 func VerifH_C04_O6_fieldnamefinder_across_streams() {
-	pattern := vC04Letters("pattern", 2)
-	n := vC04Letters("n", 1+verif.Choose("n.len", 2))
+	pattern := vC04Letters("pattern", 2, true)
+	n := vC04Letters("n", 1+verif.Choose("n.len", 2), false)
 	s1 := vC04NewStream(n, "b")
-	m := vC04Letters("m", 2)
-	k := vC04Letters("k", 1+verif.Choose("k.len", 2))
+	m := vC04Letters("m", 2, false)
+	k := vC04Letters("k", 1+verif.Choose("k.len", 2), false)
 	s2 := vC04NewStream(m, k)
 
-	l1 := verif.Choose("buf1", len(vC04Layouts)+1)
-	var buf1 []byte
-	var lay1 []int
-	if l1 < len(vC04Layouts) {
-		lay1 = vC04Layouts[l1]
-		buf1 = s1.buffer(lay1)
-	}
+	lay1 := vC04FirstLayouts[verif.Choose("buf1", len(vC04FirstLayouts))]
+	buf1 := s1.buffer(lay1)
 	lay2 := vC04Layouts[verif.Choose("buf2", len(vC04Layouts))]
 	buf2 := s2.buffer(lay2)
 
@@ -109,10 +110,9 @@ func VerifH_C04_O6_fieldnamefinder_across_streams() {
 	got2 := f.Find(s2.zctx, buf2)
 	want2 := s2.specMatch(lay2, pattern)
 	verif.Assert(!want2 || got2, "finder-drops-matching-type/second-buffer")
-	fresh := NewFieldNameFinder(pattern).Find(s2.zctx, buf2)
-	verif.Assert(got2 == fresh, "finder-answer-depends-on-earlier-buffer")
-	// for these flat record types the finder is exact
-	verif.Assert(fresh == want2, "fresh-finder-differs-from-spec")
+	// for these flat record types the finder is exact, so its answer is a
+	// function of (zctx2, buf2, pattern) alone: the specification's
+	verif.Assert(got2 == want2, "finder-answer-depends-on-earlier-buffer")
 	verif.Observe("got1", got1)
 	verif.Observe("got2", got2)
 	if got2 {
